@@ -182,14 +182,26 @@ def shards(tier, seed):
         for n_cond in (3, 4):
             for key, style in fills:
                 for part in ('bounds', 'inv', 'leak'):
-                    out.append({'kind': 'B', 'part': part, 'n_rdm': n_rdm, 'n_cond': n_cond,
-                                'key': key, 'style': style})
+                    chunks = 3 if (part == 'bounds' and n_cond == 4 and n_rdm > 2) else 1
+                    for c in range(chunks):
+                        out.append({'kind': 'B', 'part': part, 'n_rdm': n_rdm, 'n_cond': n_cond,
+                                    'key': key, 'style': style, 'chunk': [c, chunks]})
     # CV: cross-validated ceilings on every small set structure
     cvfills = fills[:2] if not thorough else fills
     for gen in ('loo_rdm', 'k_fold_rdm', 'k_fold', 'random', 'loo_pattern', 'k_fold_pattern'):
+        if gen in ('loo_rdm', 'k_fold_rdm'):
+            conds = [3, 4]
+        elif gen in ('k_fold', 'random') and not thorough:
+            conds = [6]
+        else:
+            conds = [6, 7]
         for n_rdm in (2, 3, 4):
-            for key, style in cvfills:
-                out.append({'kind': 'CV', 'gen': gen, 'n_rdm': n_rdm, 'key': key, 'style': style})
+            for n_cond in conds:
+                for key, style in cvfills:
+                    parts = 3 if (n_rdm == 4 and gen in ('k_fold', 'k_fold_rdm', 'random')) else 1
+                    for c in range(parts):
+                        out.append({'kind': 'CV', 'gen': gen, 'n_rdm': n_rdm, 'n_cond': n_cond,
+                                    'key': key, 'style': style, 'chunk': [c, parts]})
     return out
 
 
@@ -272,7 +284,7 @@ def _shard_b(shard, ctx):
     masks = [()] if n_cond == 3 else list(combi.masks(L, 2))
     labs = _labelings(n_rdm, True)
     if shard['part'] == 'bounds':
-        for mask in masks:
+        for mask in masks[shard['chunk'][0]::shard['chunk'][1]]:
             for m in ALL:
                 run_case({'kind': 'boot', 'fill': fill, 'n_cond': n_cond, 'mask': list(mask),
                           'labels': None, 'method': m, 'cands': 'grid' if m in PLAIN else None}, ctx)
@@ -287,8 +299,9 @@ def _shard_b(shard, ctx):
                               'labels': labels, 'method': m,
                               'cands': 'local' if (single and m in PLAIN) else None}, ctx)
     elif shard['part'] == 'inv':
-        for mask in masks[:1] + masks[1:8:3] + masks[7::5]:
-            for rgs, tag, labels in [(None, 'index', None)] + [x for x in labs if x[1] in ('desc', 'str')]:
+        for mask in masks[:1] + masks[3:4] + masks[12:13]:
+            for rgs, tag, labels in [(None, 'index', None)] + [x for x in labs if x[1] == (
+                    'str' if len(mask) == 1 else 'desc')]:
                 for m in ('cosine', 'corr'):
                     for which in range(n_rdm):
                         for a, b in TRANSFORMS[m]:
@@ -296,13 +309,16 @@ def _shard_b(shard, ctx):
                                       'labels': labels, 'method': m, 'which': which,
                                       'scale': a, 'shift': b}, ctx)
     elif shard['part'] == 'leak':
-        for mask in masks[:1] + masks[2:7:4] + masks[9::6]:
+        for mask in masks[:1] + masks[9:10]:
             for rgs, tag, labels in [(None, 'index', None)] + [x for x in labs if x[1] in ('desc', 'str')]:
                 if labels is not None and len(set(labels)) < 2:
                     continue
+                # every single entry of the left-out group on the complete stack ('desc' naming);
+                # the whole group at once for the other naming and under the NaN mask
+                each = not len(mask) and tag != 'str'
                 for m in PLAIN:
                     run_case({'kind': 'leak', 'fill': fill, 'n_cond': n_cond, 'mask': list(mask),
-                              'labels': labels, 'method': m}, ctx)
+                              'labels': labels, 'method': m, 'each_entry': each}, ctx)
 
 
 # ------------------------------------------------------------------------------ cases
@@ -581,8 +597,9 @@ def _case_leak(case, ctx):
                              list(left), list(pub0[left][0]), list(rest), ref_labels))
             if rest not in rec0:
                 ctx.count('recorder: boot_noise_ceiling made no pooling call on exactly the remaining groups')
-            perturbations = [[(r, k)] for r in members for k in present]
-            perturbations.append([(r, k) for r in members for k in present])
+            perturbations = [[(r, k) for r in members for k in present]]
+            if case.get('each_entry', True):
+                perturbations += [[(r, k)] for r in members for k in present]
             for pert in perturbations:
                 moved = full.copy()
                 for r, k in pert:
@@ -609,38 +626,38 @@ def _case_leak(case, ctx):
 
 # ------------------------------------------------------------------------------ cross-validation
 def _shard_cv(shard, ctx):
-    gen, n_rdm = shard['gen'], shard['n_rdm']
+    gen, n_rdm, n_cond = shard['gen'], shard['n_rdm'], shard['n_cond']
     thorough = ctx.tier == 'thorough'
     rdm_only = gen in ('loo_rdm', 'k_fold_rdm')
-    conds = [3, 4] if rdm_only else [6, 7]
-    for n_cond in conds:
-        L = n_cond * (n_cond - 1) // 2
-        fill = {'n_rdm': n_rdm, 'L': L, 'key': shard['key'], 'style': shard['style']}
-        masks = [[]]
-        if rdm_only and n_cond == 4:
-            masks = [[], [1], [0, 4]]
-        for rgs, tag, labels in _labelings(n_rdm, False):
-            n_groups = len(set(labels))
-            for mask in masks:
-                for params, random in _cv_params(gen, n_groups, n_cond):
-                    for m in PLAIN + (WHITE if gen == 'loo_rdm' and n_groups == n_rdm else []):
-                        case = {'kind': 'cv', 'gen': gen, 'fill': fill, 'n_cond': n_cond, 'mask': mask,
-                                'labels': labels, 'params': params, 'random': random, 'method': m}
-                        if not random:
-                            _cv_exec(case, Env([]), ctx)
-                            continue
-                        if gen == 'k_fold_rdm':
-                            bound = None            # every shuffle outcome (<= 4! = 24)
-                        else:
-                            bound = 2 if thorough else 1
-                        if m != 'cosine' and bound is not None and not thorough:
-                            bound = 0               # quick: deviations explored for one method
-                        for env, _ in explore(lambda env: _cv_exec(case, env, ctx), bound=bound,
-                                              max_exec=400):
-                            pass
+    L = n_cond * (n_cond - 1) // 2
+    fill = {'n_rdm': n_rdm, 'L': L, 'key': shard['key'], 'style': shard['style']}
+    masks = [[]]
+    if rdm_only and n_cond == 4:
+        masks = [[], [1], [0, 4]]
+    for rgs, tag, labels in _labelings(n_rdm, False)[shard['chunk'][0]::shard['chunk'][1]]:
+        n_groups = len(set(labels))
+        for mask in masks:
+            for params, random in _cv_params(gen, n_groups, n_cond, thorough):
+                if random and tag != 'desc' and not (thorough and gen == 'k_fold_rdm'):
+                    continue        # draws and label names are independent: one naming under draws
+                for m in PLAIN + (WHITE if gen == 'loo_rdm' and n_groups == n_rdm else []):
+                    case = {'kind': 'cv', 'gen': gen, 'fill': fill, 'n_cond': n_cond, 'mask': mask,
+                            'labels': labels, 'params': params, 'random': random, 'method': m}
+                    if not random:
+                        _cv_exec(case, Env([]), ctx)
+                        continue
+                    if gen == 'k_fold_rdm':
+                        bound = None            # every shuffle outcome (<= 4! = 24)
+                    else:
+                        bound = 2 if thorough else 1
+                    if m != PLAIN[(n_groups + len(params)) % 3] and bound is not None and not thorough:
+                        bound = 0               # quick: deviations explored for one method per case
+                    for _env, _ in explore(lambda env: _cv_exec(case, env, ctx), bound=bound,
+                                           max_exec=600):
+                        pass
 
 
-def _cv_params(gen, n_groups, n_cond):
+def _cv_params(gen, n_groups, n_cond, thorough=True):
     """(params, random) for every admissible parameter of the generator"""
     out = []
     if gen == 'loo_rdm':
@@ -658,8 +675,8 @@ def _cv_params(gen, n_groups, n_cond):
                     out.append(({'k_rdm': k, 'k_pattern': kp}, True))
     elif gen == 'random':
         for nr in range(0, n_groups):
-            for npat in (0, 3, 4):
-                out.append(({'n_rdm': nr, 'n_pattern': npat, 'n_cv': 2}, True))
+            for npat in ((0, 3, 4) if thorough else (0, 3)):
+                out.append(({'n_rdm': nr, 'n_pattern': npat, 'n_cv': 2 if (thorough or npat) else 1}, True))
     elif gen == 'loo_pattern':
         out.append(({'cgrp': [0, 0, 0, 1, 1, 1, 1][:n_cond] if n_cond == 7 else [5, 3, 5, 3, 3, 5]}, False))
         out.append(({'cgrp': (['b', 'a', 'a', 'b', 'a', 'b', 'b'])[:n_cond]}, False))
